@@ -556,7 +556,8 @@ pub struct Reason {
     pub name: &'static str,
     /// Largest number of accepted actions that can precede the rejected one without tripping
     /// the implementation's `debug_assert!(!timeline.contains(..))` (a second successful
-    /// timeline-pushing action of one change panics in debug builds).
+    /// timeline-pushing action of one change panics in debug builds; for the identity, any
+    /// second action that is reached after a first one was applied or tolerated does).
     pub max_pos: u8,
     /// The rejection does not depend on the rest of the history: wherever the change sits, the
     /// object type must reject it.
@@ -601,10 +602,10 @@ const IDENTITY_REASONS: &[Reason] = &[
             r("revision-bad-doc-signature", 1, true),
             r("revision-without-parent", 1, true),
             r("redact-missing-revision", 1, true),
-            r("accept-bad-signature", 1, false),
-            r("duplicate-verdict", 1, false),
+            r("accept-bad-signature", 0, false),
+            r("duplicate-verdict", 0, false),
             r("action-by-non-delegate", 0, false),
-            r("doc-unchanged", 1, false),
+            r("doc-unchanged", 0, false),
 ];
 
 pub fn reasons(kind: Kind) -> &'static [Reason] {
@@ -977,8 +978,11 @@ fn render(w: &World, plan: &Plan, i: usize, ids: &[Oid]) -> Rendered {
                         "doc-unchanged" => propose(author, true, true, true, &mut embeds),
                         other => unreachable!("identity reason {other}"),
                     };
+                    // Two `revision` actions in one change trip
+                    // `debug_assert!(!self.revisions.contains_key(&entry))`: outside the space.
+                    let both_propose = matches!(good, Ac::Revision { .. }) && matches!(bad, Ac::Revision { .. });
                     let mut prefix = vec![good];
-                    prefix.truncate(pos);
+                    prefix.truncate(if both_propose { 0 } else { pos });
                     prefix.push(bad);
                     prefix
                 }
